@@ -296,10 +296,20 @@ def TTerm.labels : TTerm → List Nat
   | .label l => [l]
   | _ => []
 
-/-- the distinct blank-node labels of a template (the order in which `defaultdict(BNode)` meets them
-    only decides which fresh identifier goes where, which nothing can observe) -/
+def listMax : List Nat → Nat
+  | [] => 0
+  | x :: xs => max x (listMax xs)
+
+/-- all blank-node labels written in a template, with repetitions, in template order -/
+def rawLabels (tpl : List QTpl) : List Nat :=
+  tpl.flatMap (fun q => q.1.1.labels ++ q.1.2.1.labels ++ q.1.2.2.labels)
+
+/-- the distinct blank-node labels of a template, in ascending order.  (`defaultdict(BNode)` meets them in
+    the order the template is walked; that order only decides which fresh identifier goes to which label,
+    which nothing can observe — the ascending order makes the map independent of how the template's quads
+    are arranged, e.g. by `translateQuads`.) -/
 def tplLabels (tpl : List QTpl) : List Nat :=
-  dedup (tpl.flatMap (fun q => q.1.1.labels ++ q.1.2.1.labels ++ q.1.2.2.labels))
+  (List.range (listMax (rawLabels tpl) + 1)).filter (fun l => decide (l ∈ rawLabels tpl))
 
 /-- `defaultdict(BNode)` after the template has been walked: label ↦ number of the minted node -/
 def mkMap : List Nat → Nat → List (Nat × Nat)
@@ -507,6 +517,143 @@ def Run.step (c : Cfg) (r : Run) (op : Op) : Run :=
 def runRequest (c : Cfg) (ops : List Op) (s : St) : Run :=
   ops.foldl (Run.step c) { st := s, failed := false }
 
+/-! ### `translateQuads`: the quads of INSERT DATA / DELETE DATA / DELETE and INSERT templates as written,
+      and the structure `translateUpdate1` hands to the evaluators
+
+  Written: `TriplesTemplate? ( GRAPH VarOrIri { TriplesTemplate? } '.'? TriplesTemplate? )*` — a sequence of
+  parts, each either triples outside GRAPH or one GRAPH block (possibly empty, the same graph term possibly in
+  several blocks).  Translated: `u.triples` = all triples outside GRAPH concatenated; `u.quads` = a dictionary
+  graph term ↦ triples, a later block of the same term APPENDED to the earlier entry (`allquads[q.term] += …`),
+  keys in order of first occurrence, an empty block leaving no entry (`if q.triples:`).
+  (`triples()` also reorders each list with `reorderTriples`: a permutation, not modelled.) -/
+
+/-- graph term of a GRAPH block: an IRI or a variable -/
+inductive GRef
+  | name (g : Nat)
+  | var (v : Nat)
+  deriving DecidableEq, Repr
+
+def GRef.toG : GRef → GTerm
+  | .name g => .name g
+  | .var v => .var v
+
+inductive QPart
+  | triples (ts : List TTpl)
+  | graph (g : GRef) (ts : List TTpl)
+  deriving Repr
+
+abbrev Written := List QPart
+
+structure Translated where
+  triples : List TTpl
+  quads : List (GRef × List TTpl)
+  deriving DecidableEq, Repr
+
+/-- `allquads[g] += ts` on a dictionary that keeps insertion order -/
+def dictAppend : List (GRef × List TTpl) → GRef → List TTpl → List (GRef × List TTpl)
+  | [], g, ts => [(g, ts)]
+  | (g', ts') :: rest, g, ts =>
+    if g' = g then (g', ts' ++ ts) :: rest else (g', ts') :: dictAppend rest g ts
+
+def QPart.outside : QPart → List TTpl
+  | .triples ts => ts
+  | .graph _ _ => []
+
+def dictStep (d : List (GRef × List TTpl)) : QPart → List (GRef × List TTpl)
+  | .triples _ => d
+  | .graph g ts => if ts.isEmpty then d else dictAppend d g ts
+
+def translateQuads (w : Written) : Translated :=
+  { triples := w.flatMap QPart.outside, quads := w.foldl dictStep [] }
+
+def entryQuads (e : GRef × List TTpl) : List QTpl := e.2.map (fun t => (t, e.1.toG))
+def outsideQuads (ts : List TTpl) : List QTpl := ts.map (fun t => (t, GTerm.dflt))
+
+/-- the quads a translated structure denotes, in the order the evaluators walk it -/
+def Translated.flat (t : Translated) : List QTpl :=
+  outsideQuads t.triples ++ t.quads.flatMap entryQuads
+
+def QPart.flat : QPart → List QTpl
+  | .triples ts => outsideQuads ts
+  | .graph g ts => entryQuads (g, ts)
+
+/-- the quads as written -/
+def Written.flat (w : Written) : List QTpl := w.flatMap QPart.flat
+
+/-- `evalModify`'s DELETE part for one solution, as coded: `dg -= _fillTemplate(u.delete.triples, c)`, then
+    `for g, q in u.delete.quads.items(): cg -= _fillTemplate(q, c)` -/
+def deleteTranslated (t : Translated) (tgt : GName) (s : St) (μ : Binding) : St :=
+  t.quads.foldl (fun s e => s.removeAll (fillTemplate μ [] tgt (entryQuads e)))
+    (s.removeAll (fillTemplate μ [] tgt (outsideQuads t.triples)))
+
+/-- the INSERT part for one solution (and `evalInsertData`): one blank-node map for the whole structure,
+    `dg += …(u.insert.triples…)`, then one `cg += …` per dictionary entry -/
+def insertTranslated (t : Translated) (tgt : GName) (s : St) (μ : Binding) : St :=
+  let ls := tplLabels t.flat
+  let bm := mkMap ls s.next
+  let s' := t.quads.foldl (fun s e => s.addAll (fillTemplate μ bm tgt (entryQuads e)))
+    (s.addAll (fillTemplate μ bm tgt (outsideQuads t.triples)))
+  { s' with next := s.next + ls.length }
+
+/-- a DELETE/INSERT operation with its templates as written -/
+structure WModify where
+  core : Modify                    -- `core.del` / `core.ins` only say whether the clause is present
+  del : Option Written
+  ins : Option Written
+
+/-- `evalModify` over the translated templates -/
+def evalModifyT (c : Cfg) (u : WModify) (s : St) : St :=
+  let sols := u.core.solutions c s
+  let s1 := match u.del with
+            | some w => sols.foldl (deleteTranslated (translateQuads w) u.core.withG) s
+            | none => s
+  match u.ins with
+  | some w => sols.foldl (insertTranslated (translateQuads w) u.core.withG) s1
+  | none => s1
+
+/-- an operation as written: quad data and templates still in blocks -/
+inductive WOp
+  | insertData (w : Written)
+  | deleteData (w : Written)
+  | modify (u : WModify)
+  | other (op : Op)
+
+/-- the operation the flat model sees: templates = the translated structure, walked in evaluator order -/
+def WModify.toModify (u : WModify) : Modify :=
+  { u.core with del := u.del.map (fun w => (translateQuads w).flat),
+                ins := u.ins.map (fun w => (translateQuads w).flat) }
+
+def WOp.toOp : WOp → Op
+  | .insertData w => .insertData (translateQuads w).flat
+  | .deleteData w => .deleteData (translateQuads w).flat
+  | .modify u => .modify u.toModify
+  | .other op => op
+
+/-- the operation with its templates flattened in WRITTEN order (what `Spec.*` / `modify_spec` talk about) -/
+def WModify.asWritten (u : WModify) : Modify :=
+  { u.core with del := u.del.map Written.flat, ins := u.ins.map Written.flat }
+
+def WOp.asWritten : WOp → Op
+  | .insertData w => .insertData w.flat
+  | .deleteData w => .deleteData w.flat
+  | .modify u => .modify u.asWritten
+  | .other op => op
+
+/-- one written operation, evaluated through the translated structure -/
+def evalWOp (c : Cfg) (w : WOp) (s : St) : Option St :=
+  if c.single && w.toOp.needsDataset then none
+  else match w with
+    | .insertData q => some (insertTranslated (translateQuads q) none s [])
+    | .deleteData q => some (deleteTranslated (translateQuads q) none s [])
+    | .modify u => some (evalModifyT c u s)
+    | .other op => evalOp c op s
+
+def Run.stepW (c : Cfg) (r : Run) (w : WOp) : Run :=
+  if r.failed then r
+  else match evalWOp c w r.st with
+    | some s' => { st := s', failed := false }
+    | none => { st := r.st, failed := !w.toOp.silent }
+
 /-! ### the prologue of a request (`translateUpdate` / `translatePrologue`)
 
   `Update ::= Prologue ( Update1 ( ';' Update )? )?`: declarations may precede every operation; ONE prologue
@@ -573,12 +720,12 @@ structure PRun where
 
 /-- one element of a request: the declarations written before the operation, and the operation as a function
     of the prologue in force (its IRIs are resolved against it; `none` = a name that cannot be resolved) -/
-abbrev PElem := List Decl × (Prologue → Option Op)
+abbrev PElem := List Decl × (Prologue → Option WOp)
 
 def PRun.step (c : Cfg) (T : Tables) (r : PRun) (e : PElem) : PRun :=
   let pro := e.1.foldl (Prologue.declare T) r.pro
   match e.2 pro with
-  | some op => { run := r.run.step c op, pro := pro }
+  | some op => { run := r.run.stepW c op, pro := pro }
   | none => { run := { r.run with failed := true }, pro := pro }
 
 def runPRequest (c : Cfg) (T : Tables) (es : List PElem) (r : PRun) : PRun :=
